@@ -121,6 +121,12 @@ class Gen:
         ok = (r.random() < 0.5) if ok is None else ok
         self.ops.append("lb probe %s %d %s" % (name, self.t, "ok" if ok else "fail"))
 
+    def probe_begin(self, name):
+        self.ops.append("lb probe-begin %s %d" % (name, self.t))
+
+    def probe_end(self, name, ok):
+        self.ops.append("lb probe-end %s %d %s" % (name, self.t, "ok" if ok else "fail"))
+
     def remove(self, name=None):
         r = self.rng
         name = name or (r.choice(self.names) if self.names and r.random() < 0.85 else "absent")
@@ -158,8 +164,19 @@ def mixed_episode(rng, n=30, **kw):
             g.end()
         elif k < 0.65:
             g.eject()
-        elif k < 0.72:
+        elif k < 0.70:
             g.probe()
+        elif k < 0.72 and g.names:
+            # an active probe held in flight while the backend is ejected / requests complete
+            name = rng.choice(g.names)
+            g.probe_begin(name)
+            for _ in range(rng.randint(0, 2)):
+                if rng.random() < 0.5:
+                    g.eject(name=name)
+                else:
+                    g.begin()
+                    g.end(g.infl[-1])
+            g.probe_end(name, ok=rng.random() < 0.8)
         elif k < 0.78:
             g.remove()
         elif k < 0.85:
